@@ -1,0 +1,67 @@
+//go:build verif
+
+package broker
+
+// Authorization (property C03). Authorize is the single gate every operation goes through; its collaborators
+// (ban list, key cipher, contract provider, the key's target check) are recorded in the ghost trace, so the
+// postcondition is the conjunction of the property statement: permitted exactly when the channel is well-formed,
+// the key is not banned, decrypts, is not expired, belongs to a found contract that validates it, carries the
+// required permission, and its target covers the channel.
+
+import (
+	"github.com/emitter-io/emitter/internal/provider/contract"
+	"github.com/emitter-io/emitter/internal/security"
+	vs "github.com/emitter-io/emitter/internal/verifspec"
+)
+
+//@ assume (*github.com/emitter-io/emitter/internal/service/cluster.Swarm).Contains iface
+//@ assume (github.com/emitter-io/emitter/internal/security.Key).ValidateChannel iface
+//@ assume (*github.com/emitter-io/emitter/internal/service/keygen.Service).DecryptKey iface post=post_Decryptor_DecryptKey
+func post_Decryptor_DecryptKey(res0 security.Key, res1 error) bool { return res1 != nil || len(res0) == 24 }
+
+//@ assume (github.com/emitter-io/emitter/internal/provider/contract.Provider).Get iface post=post_Provider_Get
+func post_Provider_Get(res0 contract.Contract, res1 bool) bool { return !res1 || res0 != nil }
+
+func pre_Authorize(s *Service, channel *security.Channel) bool {
+	return s != nil && channel != nil && s.keygen != nil && s.contracts != nil
+}
+
+// specExpired: what IsExpired computed, read off the recorded time comparisons: expires != never and before now
+func specExpired() bool {
+	e, b := vs.TraceFind("Equal"), vs.TraceFind("Before")
+	return e >= 0 && !vs.TraceRetBool(e, 0) && b >= 0 && vs.TraceRetBool(b, 0)
+}
+
+//@ verify (*Service).Authorize pre=pre_Authorize post=post_Authorize_deny,post_Authorize_allow,post_Authorize_complete props=C03,C14
+func post_Authorize_deny(s *Service, res0 contract.Contract, res1 security.Key, res2 bool) bool {
+	return res2 || (res0 == nil && res1 == nil)
+}
+func post_Authorize_allow(s *Service, channel *security.Channel, permission uint8, res0 contract.Contract, res1 security.Key, res2 bool) bool {
+	if !res2 {
+		return true
+	}
+	c, d, g, v, t := vs.TraceFind("Contains"), vs.TraceFind("DecryptKey"), vs.TraceFind("Get"), vs.TraceFind("Validate"), vs.TraceFind("ValidateChannel")
+	if d < 0 || g < 0 || v < 0 || t < 0 {
+		return false
+	}
+	key := vs.TraceRetBytes(d, 0)
+	return channel.ChannelType != security.ChannelInvalid &&
+		(s.cluster == nil || (c >= 0 && !vs.TraceRetBool(c, 0))) && // not banned
+		vs.TraceRetErr(d, 1) == nil && len(key) == 24 && !specExpired() && // decrypts, not expired
+		vs.TraceArg32(g, 1) == uint32(key[4])<<24|uint32(key[5])<<16|uint32(key[6])<<8|uint32(key[7]) && vs.TraceRetBool(g, 1) && // its own contract
+		vs.TraceRetBool(v, 0) && key[15]&permission == permission && vs.TraceRetBool(t, 0) && // validates, permitted, target covers
+		vs.SameBytes(res1, key)
+}
+
+// and nothing else is required: when every condition held, the operation is permitted
+func post_Authorize_complete(s *Service, channel *security.Channel, permission uint8, res2 bool) bool {
+	c, d, g, v, t := vs.TraceFind("Contains"), vs.TraceFind("DecryptKey"), vs.TraceFind("Get"), vs.TraceFind("Validate"), vs.TraceFind("ValidateChannel")
+	if res2 || channel.ChannelType == security.ChannelInvalid || (s.cluster != nil && c >= 0 && vs.TraceRetBool(c, 0)) {
+		return true
+	}
+	if d < 0 || vs.TraceRetErr(d, 1) != nil || specExpired() || g < 0 || !vs.TraceRetBool(g, 1) {
+		return true
+	}
+	key := vs.TraceRetBytes(d, 0)
+	return v < 0 || !vs.TraceRetBool(v, 0) || key[15]&permission != permission || t < 0 || !vs.TraceRetBool(t, 0)
+}
